@@ -20,6 +20,7 @@
 #include <sys/wait.h>
 #include <unistd.h>
 
+#include <algorithm>
 #include <functional>
 #include <map>
 #include <memory>
@@ -42,6 +43,9 @@ namespace {
 
 std::vector<std::string> g_log;
 void LOG(const char *s) { g_log.emplace_back(s); }
+/// "epoch" of the problem object an evaluation ran on: every `mutate` op stamps the object it changes with a
+/// fresh number; native problem classes report the stamp of `*this` with every logged call
+std::vector<int> g_eps;
 std::string plugin_dir;
 
 std::string join(const std::vector<std::string> &v) {
@@ -74,6 +78,10 @@ struct NativeBase {
     length_t n = 2, m = 0;
     uint32_t pv = 0;
     Box C{0}, D{0};
+    int epoch        = 0;     // stamp of the last mutation applied to this object
+    bool has_fconst  = false; // `mutate const v`: eval_f returns the constant v
+    real_t fconst    = 0;
+    void L(const char *s) const { LOG(s); g_eps.push_back(epoch); }
     void init(length_t n_, length_t m_, uint32_t pv_) {
         n = n_; m = m_; pv = pv_;
         C = Box{n}; D = Box{m};
@@ -91,35 +99,35 @@ struct NP : NativeBase {
     static constexpr bool prv(int b) { return (PROV >> b) & 1; }
     bool val(int b) const { return (pv >> b) & 1; }
     // required
-    void eval_proj_diff_g(crvec z, rvec e) const { LOG("eval_proj_diff_g"); c20_proj_diff_g(m, z.data(), e.data()); }
-    void eval_proj_multipliers(rvec y, real_t M) const { LOG("eval_proj_multipliers"); c20_proj_multipliers(m, y.data(), M); }
-    real_t eval_prox_grad_step(real_t γ, crvec x, crvec g, rvec x̂, rvec p) const { LOG("eval_prox_grad_step"); return c20_prox_grad_step(n, γ, x.data(), g.data(), x̂.data(), p.data()); }
-    real_t eval_f(crvec x) const { LOG("eval_f"); return c20_f(n, x.data()); }
-    void eval_grad_f(crvec x, rvec g) const { LOG("eval_grad_f"); c20_grad_f(n, x.data(), g.data()); }
-    void eval_g(crvec x, rvec gx) const { LOG("eval_g"); c20_g(n, m, x.data(), gx.data()); }
-    void eval_grad_g_prod(crvec x, crvec y, rvec o) const { LOG("eval_grad_g_prod"); c20_grad_g_prod(n, m, x.data(), y.data(), o.data()); }
+    void eval_proj_diff_g(crvec z, rvec e) const { L("eval_proj_diff_g"); c20_proj_diff_g(m, z.data(), e.data()); }
+    void eval_proj_multipliers(rvec y, real_t M) const { L("eval_proj_multipliers"); c20_proj_multipliers(m, y.data(), M); }
+    real_t eval_prox_grad_step(real_t γ, crvec x, crvec g, rvec x̂, rvec p) const { L("eval_prox_grad_step"); return c20_prox_grad_step(n, γ, x.data(), g.data(), x̂.data(), p.data()); }
+    real_t eval_f(crvec x) const { L("eval_f"); if (has_fconst) return fconst; return c20_f(n, x.data()); }
+    void eval_grad_f(crvec x, rvec g) const { L("eval_grad_f"); c20_grad_f(n, x.data(), g.data()); }
+    void eval_g(crvec x, rvec gx) const { L("eval_g"); c20_g(n, m, x.data(), gx.data()); }
+    void eval_grad_g_prod(crvec x, crvec y, rvec o) const { L("eval_grad_g_prod"); c20_grad_g_prod(n, m, x.data(), y.data(), o.data()); }
     // optional
-    index_t eval_inactive_indices_res_lna(real_t γ, crvec x, crvec g, rindexvec J) const requires(has(B_INACT)) { LOG("eval_inactive_indices_res_lna"); return c20_inactive(n, γ, x.data(), g.data(), J.data()); }
-    void eval_jac_g(crvec x, rvec J) const requires(has(B_JAC)) { LOG("eval_jac_g"); c20_jac_g(n, m, x.data(), J.size() ? J.data() : nullptr); }
-    Sparsity get_jac_g_sparsity() const requires(has(B_JACSP)) { LOG("get_jac_g_sparsity"); return alpaqa::sparsity::Dense<config_t>{m, n, alpaqa::sparsity::Symmetry::Unsymmetric}; }
-    void eval_grad_gi(crvec x, index_t i, rvec o) const requires(has(B_GRADGI)) { LOG("eval_grad_gi"); c20_grad_gi(n, x.data(), i, o.data()); }
-    void eval_hess_L_prod(crvec x, crvec y, real_t s, crvec v, rvec Hv) const requires(has(B_HLP)) { LOG("eval_hess_L_prod"); c20_hess_L_prod(n, m, x.data(), y.data(), s, v.data(), Hv.data()); }
-    void eval_hess_L(crvec x, crvec y, real_t s, rvec H) const requires(has(B_HL)) { LOG("eval_hess_L"); c20_hess_L(n, m, x.data(), y.data(), s, H.size() ? H.data() : nullptr); }
-    Sparsity get_hess_L_sparsity() const requires(has(B_HLSP)) { LOG("get_hess_L_sparsity"); return alpaqa::sparsity::Dense<config_t>{n + 10, n + 10, alpaqa::sparsity::Symmetry::Lower}; }
-    void eval_hess_ψ_prod(crvec x, crvec y, crvec Σ, real_t s, crvec v, rvec Hv) const requires(has(B_HPP)) { LOG("eval_hess_ψ_prod"); c20_hess_psi_prod(n, m, x.data(), y.data(), Σ.data(), s, D.lowerbound.data(), D.upperbound.data(), v.data(), Hv.data()); }
-    void eval_hess_ψ(crvec x, crvec y, crvec Σ, real_t s, rvec H) const requires(has(B_HP)) { LOG("eval_hess_ψ"); c20_hess_psi(n, m, x.data(), y.data(), Σ.data(), s, D.lowerbound.data(), D.upperbound.data(), H.size() ? H.data() : nullptr); }
-    Sparsity get_hess_ψ_sparsity() const requires(has(B_HPSP)) { LOG("get_hess_ψ_sparsity"); return alpaqa::sparsity::Dense<config_t>{n + 20, n + 20, alpaqa::sparsity::Symmetry::Upper}; }
-    real_t eval_f_grad_f(crvec x, rvec g) const requires(has(B_FGF)) { LOG("eval_f_grad_f"); return c20_f_grad_f(n, x.data(), g.data()); }
-    real_t eval_f_g(crvec x, rvec g) const requires(has(B_FG)) { LOG("eval_f_g"); return c20_f_g(n, m, x.data(), g.data()); }
-    void eval_grad_f_grad_g_prod(crvec x, crvec y, rvec gf, rvec gg) const requires(has(B_GFGGP)) { LOG("eval_grad_f_grad_g_prod"); c20_grad_f_grad_g_prod(n, m, x.data(), y.data(), gf.data(), gg.data()); }
-    void eval_grad_L(crvec x, crvec y, rvec gL, rvec w) const requires(has(B_GL)) { LOG("eval_grad_L"); c20_grad_L(n, m, x.data(), y.data(), gL.data(), w.data()); }
-    real_t eval_ψ(crvec x, crvec y, crvec Σ, rvec ŷ) const requires(has(B_PSI)) { LOG("eval_ψ"); return c20_psi(n, m, x.data(), y.data(), Σ.data(), D.lowerbound.data(), D.upperbound.data(), ŷ.data()); }
-    void eval_grad_ψ(crvec x, crvec y, crvec Σ, rvec g, rvec wn, rvec wm) const requires(has(B_GPSI)) { LOG("eval_grad_ψ"); c20_grad_psi(n, m, x.data(), y.data(), Σ.data(), D.lowerbound.data(), D.upperbound.data(), g.data(), wn.data(), wm.data()); }
-    real_t eval_ψ_grad_ψ(crvec x, crvec y, crvec Σ, rvec g, rvec wn, rvec wm) const requires(has(B_PGP)) { LOG("eval_ψ_grad_ψ"); return c20_psi_grad_psi(n, m, x.data(), y.data(), Σ.data(), D.lowerbound.data(), D.upperbound.data(), g.data(), wn.data(), wm.data()); }
-    const Box &get_box_C() const requires(has(B_BOXC)) { LOG("get_box_C"); return C; }
-    const Box &get_box_D() const requires(has(B_BOXD)) { LOG("get_box_D"); return D; }
-    void check() const requires(has(B_CHECK)) { LOG("check"); }
-    std::string get_name() const requires(has(B_NAME)) { LOG("get_name"); return "c20 native problem"; }
+    index_t eval_inactive_indices_res_lna(real_t γ, crvec x, crvec g, rindexvec J) const requires(has(B_INACT)) { L("eval_inactive_indices_res_lna"); return c20_inactive(n, γ, x.data(), g.data(), J.data()); }
+    void eval_jac_g(crvec x, rvec J) const requires(has(B_JAC)) { L("eval_jac_g"); c20_jac_g(n, m, x.data(), J.size() ? J.data() : nullptr); }
+    Sparsity get_jac_g_sparsity() const requires(has(B_JACSP)) { L("get_jac_g_sparsity"); return alpaqa::sparsity::Dense<config_t>{m, n, alpaqa::sparsity::Symmetry::Unsymmetric}; }
+    void eval_grad_gi(crvec x, index_t i, rvec o) const requires(has(B_GRADGI)) { L("eval_grad_gi"); c20_grad_gi(n, x.data(), i, o.data()); }
+    void eval_hess_L_prod(crvec x, crvec y, real_t s, crvec v, rvec Hv) const requires(has(B_HLP)) { L("eval_hess_L_prod"); c20_hess_L_prod(n, m, x.data(), y.data(), s, v.data(), Hv.data()); }
+    void eval_hess_L(crvec x, crvec y, real_t s, rvec H) const requires(has(B_HL)) { L("eval_hess_L"); c20_hess_L(n, m, x.data(), y.data(), s, H.size() ? H.data() : nullptr); }
+    Sparsity get_hess_L_sparsity() const requires(has(B_HLSP)) { L("get_hess_L_sparsity"); return alpaqa::sparsity::Dense<config_t>{n + 10, n + 10, alpaqa::sparsity::Symmetry::Lower}; }
+    void eval_hess_ψ_prod(crvec x, crvec y, crvec Σ, real_t s, crvec v, rvec Hv) const requires(has(B_HPP)) { L("eval_hess_ψ_prod"); c20_hess_psi_prod(n, m, x.data(), y.data(), Σ.data(), s, D.lowerbound.data(), D.upperbound.data(), v.data(), Hv.data()); }
+    void eval_hess_ψ(crvec x, crvec y, crvec Σ, real_t s, rvec H) const requires(has(B_HP)) { L("eval_hess_ψ"); c20_hess_psi(n, m, x.data(), y.data(), Σ.data(), s, D.lowerbound.data(), D.upperbound.data(), H.size() ? H.data() : nullptr); }
+    Sparsity get_hess_ψ_sparsity() const requires(has(B_HPSP)) { L("get_hess_ψ_sparsity"); return alpaqa::sparsity::Dense<config_t>{n + 20, n + 20, alpaqa::sparsity::Symmetry::Upper}; }
+    real_t eval_f_grad_f(crvec x, rvec g) const requires(has(B_FGF)) { L("eval_f_grad_f"); return c20_f_grad_f(n, x.data(), g.data()); }
+    real_t eval_f_g(crvec x, rvec g) const requires(has(B_FG)) { L("eval_f_g"); return c20_f_g(n, m, x.data(), g.data()); }
+    void eval_grad_f_grad_g_prod(crvec x, crvec y, rvec gf, rvec gg) const requires(has(B_GFGGP)) { L("eval_grad_f_grad_g_prod"); c20_grad_f_grad_g_prod(n, m, x.data(), y.data(), gf.data(), gg.data()); }
+    void eval_grad_L(crvec x, crvec y, rvec gL, rvec w) const requires(has(B_GL)) { L("eval_grad_L"); c20_grad_L(n, m, x.data(), y.data(), gL.data(), w.data()); }
+    real_t eval_ψ(crvec x, crvec y, crvec Σ, rvec ŷ) const requires(has(B_PSI)) { L("eval_ψ"); return c20_psi(n, m, x.data(), y.data(), Σ.data(), D.lowerbound.data(), D.upperbound.data(), ŷ.data()); }
+    void eval_grad_ψ(crvec x, crvec y, crvec Σ, rvec g, rvec wn, rvec wm) const requires(has(B_GPSI)) { L("eval_grad_ψ"); c20_grad_psi(n, m, x.data(), y.data(), Σ.data(), D.lowerbound.data(), D.upperbound.data(), g.data(), wn.data(), wm.data()); }
+    real_t eval_ψ_grad_ψ(crvec x, crvec y, crvec Σ, rvec g, rvec wn, rvec wm) const requires(has(B_PGP)) { L("eval_ψ_grad_ψ"); return c20_psi_grad_psi(n, m, x.data(), y.data(), Σ.data(), D.lowerbound.data(), D.upperbound.data(), g.data(), wn.data(), wm.data()); }
+    const Box &get_box_C() const requires(has(B_BOXC)) { L("get_box_C"); return C; }
+    const Box &get_box_D() const requires(has(B_BOXD)) { L("get_box_D"); return D; }
+    void check() const requires(has(B_CHECK)) { L("check"); }
+    std::string get_name() const requires(has(B_NAME)) { L("get_name"); return "c20 native problem"; }
     // provides_
     bool provides_eval_inactive_indices_res_lna() const requires(prv(B_INACT)) { return val(B_INACT); }
     bool provides_eval_jac_g() const requires(prv(B_JAC)) { return val(B_JAC); }
@@ -169,9 +177,10 @@ struct RefDL : alpaqa::BoxConstrProblem<config_t> {
     void eval_proj_multipliers(rvec y, real_t M) const { if (F->eval_proj_multipliers) F->eval_proj_multipliers(inst, y.data(), M); else Base::eval_proj_multipliers(y, M); }
     real_t eval_prox_grad_step(real_t γ, crvec x, crvec g, rvec x̂, rvec p) const { if (F->eval_prox_grad_step) return F->eval_prox_grad_step(inst, γ, x.data(), g.data(), x̂.data(), p.data()); return Base::eval_prox_grad_step(γ, x, g, x̂, p); }
     index_t eval_inactive_indices_res_lna(real_t γ, crvec x, crvec g, rindexvec J) const { if (F->eval_inactive_indices_res_lna) return F->eval_inactive_indices_res_lna(inst, γ, x.data(), g.data(), J.data()); return Base::eval_inactive_indices_res_lna(γ, x, g, J); }
-    bool provides_eval_inactive_indices_res_lna() const { return !F->eval_prox_grad_step || F->eval_inactive_indices_res_lna; }
-    bool provides_get_box_C() const { return !F->eval_prox_grad_step && Base::provides_get_box_C(); }
-    bool provides_get_box_D() const { return !F->eval_proj_diff_g; }
+    // No provides_ members for eval_inactive_indices_res_lna / get_box_C / get_box_D here: what the loader must
+    // report for them is computed by the monitor (checks/c20.py, `dl_expected_flags`) from the plug-in's raw
+    // table (which pointers are null) and the documented rule; this class only says what *calling* them gives
+    // when they are available.
     real_t eval_f(crvec x) const { return F->eval_f(inst, x.data()); }
     void eval_grad_f(crvec x, rvec g) const { F->eval_grad_f(inst, x.data(), g.data()); }
     void eval_g(crvec x, rvec gx) const { F->eval_g(inst, x.data(), gx.data()); }
@@ -276,7 +285,7 @@ std::string fmt_box(const Box &b) { return fmtv(b.lowerbound) + " " + fmtv(b.upp
 struct Args {
     real_t a = 0;
     index_t i = 0;
-    vec x, y, S, v, e5; // NLP: x y Σ v ; OCP: x u h p M
+    vec x, y, S, v, e5, zf; // NLP: x y Σ v ; OCP: x u h p M, zf = vector over all stages (N·nc + nc_N)
 };
 
 struct Res {
